@@ -167,6 +167,9 @@ func genC16Decoy(t *rapid.T, nargs int, label string) string {
 			pieces = []string{"a", " ", "\"\"", "\\\"", "\\\\", "'", "`", "--", "/*", "#", "é", "PH", "PH", "x "}
 		case "bt":
 			pieces = []string{"a", "b", "'", "\"", "é", "PH", "PH", "c", "_", "-", "\\", "\\"}
+		case "block":
+			// (a star is always followed by a blank here, so the body cannot close the comment by accident)
+			pieces = []string{"a", " ", "'", "\"", "`", "é", "PH", "PH", "note", "$", "/", "/", "* ", "//", "-- ", "#"}
 		default:
 			pieces = []string{"a", " ", "'", "\"", "`", "é", "PH", "PH", "note", "$"}
 		}
@@ -189,7 +192,12 @@ func genC16Decoy(t *rapid.T, nargs int, label string) string {
 	case "bt":
 		return "`" + body + "`"
 	case "block":
-		return "/* " + body + " */"
+		// the body may start right after the opener (also with a slash: /*/ .. */) and end right before the closer (**/)
+		open := rapid.SampledFrom([]string{"/* ", "/* ", "/*", "/*/", "/*//", "/** "}).Draw(t, label+".open")
+		if open == "/*" && (strings.HasPrefix(body, "!") || strings.HasPrefix(body, "+")) {
+			open = "/* "
+		}
+		return open + body + rapid.SampledFrom([]string{" */", " */", " **/", "/ */"}).Draw(t, label+".close")
 	case "dash":
 		return "-- " + body + "\n"
 	case "hash":
